@@ -188,6 +188,8 @@ class Program:
         self.gen = Gen(rng, self.world, {"p_comp": 0.2, "dist_dups": True})
         r = rng.random()
         self.n = rng.randint(1, 12) if r < 0.8 else rng.randint(13, 60)
+        if tier == "thorough" and rng.random() < 0.2:
+            self.n = rng.randint(60, 150)  # thorough tier: some very long histories
         self.p_fault = rng.choice([0.0, 0.1, 0.17, 0.17, 0.3])
 
     def source(self, i, sess):
